@@ -10,6 +10,7 @@ type StackN<const N: usize, const S: usize> = any_vec::mem::StackN<N, S>;
 
 #[cfg(feature = "lib_alloc")]
 anyvec_pbt::configs! {
+    Cc24_Heap:    Cc24,   Heap,  dyn Cloneable + Send, G_BACKEND | G_RAW;
     Tr16_StackNA:  Tr16,   StackN<3, 48>,   dyn Cloneable, G_ALIGN;
     Tr3_Multi:    Tr3,    Multi, dyn Cloneable, G_LAYOUT | G_CORE | G_FAULT;
     Tr160_Multi:  Tr160,  Multi, dyn Cloneable, G_LAYOUT | G_CORE | G_FAULT;
